@@ -17,7 +17,15 @@
 
    The two repairs this module is checked with (the spec models the code, the invariants judge it):
      WksCheck   _bind_by_name looks at sap[addr] before it binds a well-known name (shipped code: FALSE)
-     SnlClean   the names of an address are dropped when its last socket is closed   (shipped code: FALSE)   *)
+     SnlClean   the names of an address are dropped when its last socket is closed   (shipped code: FALSE)
+   and one deliberately wrong variant that shows FreedOnLastClose is not vacuous on the socket life cycle:
+     KeepDead   close() of a socket that already shut itself down leaves it in its access point (code: FALSE)
+
+   Socket life cycle (st): "open" (LDL/raw ESTABLISHED, DLC CLOSED) -> "listen" | "connecting" -> "conn" -> "cw"
+   (CLOSE_WAIT, the peer sent DISC) ; "dead" = the transmission control object went to SHUTDOWN on its own - recv()
+   saw the peer's DISC, an FRMR arrived, or a non connection-mode PDU (UI) hit the connection-mode socket - but the
+   application has not closed it yet: it still sits in its access point and keeps its address and service name;
+   "shut" = closed by the application: in no access point, and an access point without sockets does not exist.   *)
 EXTENDS Integers, Sequences, SequencesExt, FiniteSets, TLC
 
 CONSTANTS NSap,        \* size of the SAP table (64; scaled 8)
@@ -33,7 +41,7 @@ CONSTANTS NSap,        \* size of the SAP table (64; scaled 8)
           Dsts,        \* destination addresses of datagrams / connects       (model checking only)
           RecvBuf,     \* SO_RCVBUF of logical data link sockets
           Backlog,     \* listen() backlog
-          WksCheck, SnlClean
+          WksCheck, SnlClean, KeepDead
 
 Sides == {"A", "B"}
 Peer(c) == IF c = "A" THEN "B" ELSE "A"
@@ -50,7 +58,7 @@ vars == <<w, last>>
 \* socket: kind, addr (getsockname), st, peer, rq;  ghosts: name / how it was bound, origin "bind"|"accept"|"none"
 NewSock(k) == [kind |-> k, addr |-> NoAddr, st |-> "open", peer |-> NoAddr, rq |-> <<>>,
                name |-> "", how |-> "", origin |-> "none"]
-Live(s) == s.st # "shut"
+Live(s) == s.st # "shut"            \* not yet closed by the application ("dead" sockets still hold their address)
 
 Occupied(x, c, a) == a \in {0, 1} \/ x.sap[c][a] # <<>>          \* sap[a] is not None
 FirstFree(x, c, range) == LET f == {a \in range : ~Occupied(x, c, a)} IN
@@ -88,7 +96,7 @@ BindR(x, c, s, arg, fx) ==
                         ELSE [w |-> Install(x, c, s, a, arg.n, "name"), res |-> "OK"]
            [] OTHER -> [w |-> x, res |-> "Fault"]
 
-NoFix == [wks |-> FALSE, snl |-> FALSE]
+NoFix == [wks |-> FALSE, snl |-> FALSE, keep |-> FALSE]
 AutoBind(x, c, s) == IF x.sk[c][s].addr # NoAddr THEN [w |-> x, res |-> "OK"] ELSE BindR(x, c, s, [t |-> "none"], NoFix)
 
 \* ------------------------------------------------------------------ listen()                    llc.py:794, tco.py listen
@@ -97,7 +105,7 @@ ListenR(x, c, s) ==
     IF k.kind # "dlc" THEN [w |-> x, res |-> "OpNotSupp"]
     ELSE LET b == AutoBind(x, c, s) IN
          IF b.res # "OK" THEN b
-         ELSE IF k.st = "shut" THEN [w |-> b.w, res |-> "Shutdown"]
+         ELSE IF k.st \in {"shut", "dead"} THEN [w |-> b.w, res |-> "Shutdown"]
          ELSE IF k.st # "open" THEN [w |-> b.w, res |-> "NotSup"]
          ELSE [w |-> [b.w EXCEPT !.sk[c][s].st = "listen"], res |-> "OK"]
 
@@ -141,26 +149,42 @@ AcceptR(x, c, l) ==
         res |-> "OK", new |-> n]
 
 \* ------------------------------------------------------------------ sendto() + dispatch at the peer    llc.py:826, tco.py:297, llc.py:115-135
-\* got: socket id at the peer whose receive queue took the datagram (0 = nobody)
+\* got: socket id at the peer whose receive queue took the datagram (0 = nobody); hit: the socket the access point
+\* handed the UI PDU to.  A connection-mode socket (listening, connected or not) answers a UI PDU with FRMR and
+\* shuts down (tco.py DataLinkConnection.enqueue, "non connection mode pdu") - it stays in its access point
 SendToR(x, c, s, dst, m) ==
     LET k == x.sk[c][s]  p == Peer(c) IN
     LET b == AutoBind(x, c, s) IN
-    IF b.res # "OK" THEN [w |-> b.w, res |-> b.res, got |-> 0]
-    ELSE IF k.st = "shut" THEN [w |-> b.w, res |-> "Shutdown", got |-> 0]
-    ELSE IF k.peer # NoAddr /\ dst # k.peer THEN [w |-> b.w, res |-> "DestReq", got |-> 0]
+    IF b.res # "OK" THEN [w |-> b.w, res |-> b.res, got |-> 0, hit |-> 0]
+    ELSE IF k.st = "shut" THEN [w |-> b.w, res |-> "Shutdown", got |-> 0, hit |-> 0]
+    ELSE IF k.peer # NoAddr /\ dst # k.peer THEN [w |-> b.w, res |-> "DestReq", got |-> 0, hit |-> 0]
     ELSE LET y == b.w
              me == y.sk[c][s].addr
              t == IF dst \in {0, 1} THEN 0
                   ELSE FirstWhere(y, p, y.sap[p][dst], LAMBDA q : q.peer = me \/ q.peer = NoAddr)
-         IN IF t = 0 \/ y.sk[p][t].kind = "dlc" \/ Len(y.sk[p][t].rq) >= RecvBuf
-            THEN [w |-> y, res |-> "OK", got |-> 0]
-            ELSE [w |-> [y EXCEPT !.sk[p][t].rq = Append(@, [m |-> m, ssap |-> me, to |-> dst])], res |-> "OK", got |-> t]
+         IN IF t = 0 THEN [w |-> y, res |-> "OK", got |-> 0, hit |-> 0]
+            ELSE IF y.sk[p][t].kind = "dlc"
+            THEN [w |-> [y EXCEPT !.sk[p][t].st = "dead", !.sk[p][t].rq = <<>>], res |-> "OK", got |-> 0, hit |-> t]
+            ELSE IF Len(y.sk[p][t].rq) >= RecvBuf THEN [w |-> y, res |-> "OK", got |-> 0, hit |-> t]
+            ELSE [w |-> [y EXCEPT !.sk[p][t].rq = Append(@, [m |-> m, ssap |-> me, to |-> dst])], res |-> "OK", got |-> t, hit |-> t]
 
 \* recvfrom() with a datagram waiting (the binding never calls it on an empty queue: it would block)    llc.py:854
 RecvFromR(x, c, s) ==
     LET k == x.sk[c][s] IN
     IF k.addr = NoAddr \/ ~Occupied(x, c, k.addr) THEN [w |-> x, res |-> "BadF", m |-> 0, ssap |-> 0]
     ELSE [w |-> [x EXCEPT !.sk[c][s].rq = Tail(@)], res |-> "OK", m |-> Head(k.rq).m, ssap |-> Head(k.rq).ssap]
+
+\* recv() on a connection-mode socket that is not waiting for data: in CLOSE_WAIT it finds the DISC indication,
+\* shuts the socket down (tco.py DataLinkConnection.recv -> self.close()) and returns None - the socket is NOT
+\* taken out of its access point by that, only the application's close() does so                    llc.py recv/recvfrom
+RecvR(x, c, s) ==
+    LET k == x.sk[c][s] IN
+    IF k.addr = NoAddr \/ ~Occupied(x, c, k.addr) THEN [w |-> x, res |-> "BadF"]
+    ELSE IF k.st = "cw" THEN [w |-> [x EXCEPT !.sk[c][s].st = "dead"], res |-> "EOF"]
+    ELSE [w |-> x, res |-> "NotConn"]                                                       \* ENOTCONN
+
+\* the remote end of connection s reports a protocol error: an FRMR PDU for (s.addr, s.peer) arrives    tco.py:_enqueue_state_established
+PeerFrmrR(x, c, s) == [w |-> [x EXCEPT !.sk[c][s].st = "dead", !.sk[c][s].rq = <<>>], res |-> "OK"]
 
 \* ------------------------------------------------------------------ resolve()                   llc.py:175-217
 \* the peer answers from its name list only; the answer is cached for the life of the link
@@ -182,12 +206,17 @@ CloseR(x, c, s, fx) ==
     LET k == x.sk[c][s]  p == Peer(c) IN
     IF k.addr = NoAddr THEN [w |-> [x EXCEPT !.sk[c][s] = Shut(@)], res |-> "OK"]
     ELSE IF ~Occupied(x, c, k.addr) THEN [w |-> x, res |-> "Crash"]          \* sap[addr] is None: AttributeError
+    ELSE IF fx.keep /\ k.st = "dead" THEN [w |-> [x EXCEPT !.sk[c][s] = Shut(@)], res |-> "OK"]   \* (wrong variant) not removed
     ELSE IF k.st = "conn"
     THEN \* DISC to the peer: the connection's other end goes to CLOSE_WAIT and answers DM
          LET t == FirstWhere(x, p, x.sap[p][k.peer], LAMBDA q : q.peer = k.addr \/ q.peer = NoAddr)
              y == IF t # 0 /\ x.sk[p][t].st = "conn" THEN [x EXCEPT !.sk[p][t].st = "cw"] ELSE x
          IN [w |-> Drop(y, c, s, fx), res |-> "OK"]
     ELSE [w |-> Drop(x, c, s, fx), res |-> "OK"]
+
+\* the socket at the peer that the DISC of connection s is handed to (0 = nobody)
+OtherEnd(x, c, s) == LET k == x.sk[c][s] IN
+                     FirstWhere(x, Peer(c), x.sap[Peer(c)][k.peer], LAMBDA q : q.peer = k.addr \/ q.peer = NoAddr)
 
 \* ------------------------------------------------------------------ properties (C17)
 Ids(x, c) == 1..Len(x.sk[c])
@@ -269,7 +298,7 @@ Socket(c, k) ==
     /\ w' = [w EXCEPT !.sk[c] = Append(@, NewSock(k))]
     /\ last' = [Rec("Socket", c, 0, w) EXCEPT !.kind = k]
 
-Fix == [wks |-> WksCheck, snl |-> SnlClean]
+Fix == [wks |-> WksCheck, snl |-> SnlClean, keep |-> KeepDead]
 BindNone(c, s) ==
     /\ Can(c, "BindNone") /\ Alive(c, s)
     /\ LET r == BindR(w, c, s, [t |-> "none"], NoFix) IN w' = r.w /\ last' = [Rec("BindNone", c, s, w) EXCEPT !.res = r.res]
@@ -297,12 +326,23 @@ Accept(c, s) ==
     /\ Can(c, "Accept") /\ Alive(c, s) /\ w.sk[c][s].st = "listen" /\ w.sk[c][s].rq # <<>>
     /\ Len(w.sk[c]) < MaxSock[c]
     /\ LET r == AcceptR(w, c, s) IN w' = r.w /\ last' = [Rec("Accept", c, s, w) EXCEPT !.res = r.res, !.got = r.new]
-\* datagrams are not aimed at data link connection sockets (the listener would answer FRMR and shut down)
+\* a datagram may hit a connection-mode socket (which shuts down), but not one whose owner is blocked in connect()
+\* and not a listener with unanswered connection requests (their owners would wait for ever)
 SendTo(c, s, dst, m) ==
     /\ Can(c, "SendTo") /\ Alive(c, s) /\ w.sk[c][s].kind = "ldl"
-    /\ \A i \in DOMAIN w.sap[Peer(c)][dst] : w.sk[Peer(c)][w.sap[Peer(c)][dst][i]].kind # "dlc"
     /\ LET r == SendToR(w, c, s, dst, m)
-       IN w' = r.w /\ last' = [Rec("SendTo", c, s, w) EXCEPT !.res = r.res, !.dst = dst, !.m = m, !.got = r.got]
+       IN /\ (r.hit # 0 /\ w.sk[Peer(c)][r.hit].kind = "dlc") =>
+                (w.sk[Peer(c)][r.hit].st # "connecting" /\ w.sk[Peer(c)][r.hit].rq = <<>>)
+          /\ w' = r.w /\ last' = [Rec("SendTo", c, s, w) EXCEPT !.res = r.res, !.dst = dst, !.m = m, !.got = r.got]
+\* recv() on a connection-mode socket, never where it would block (connected with nothing to read, connecting)
+Recv(c, s) ==
+    /\ Can(c, "Recv") /\ Alive(c, s) /\ w.sk[c][s].kind = "dlc" /\ w.sk[c][s].st \notin {"conn", "connecting"}
+    /\ LET r == RecvR(w, c, s) IN w' = r.w /\ last' = [Rec("Recv", c, s, w) EXCEPT !.res = r.res]
+\* an FRMR PDU for an established connection arrives (a protocol error reported by the remote device)
+PeerFrmr(c, s) ==
+    /\ Can(c, "PeerFrmr") /\ Alive(c, s) /\ w.sk[c][s].kind = "dlc" /\ w.sk[c][s].st = "conn"
+    /\ FirstWhere(w, c, w.sap[c][w.sk[c][s].addr], LAMBDA q : q.peer = w.sk[c][s].peer \/ q.peer = NoAddr) = s
+    /\ LET r == PeerFrmrR(w, c, s) IN w' = r.w /\ last' = [Rec("PeerFrmr", c, s, w) EXCEPT !.res = r.res]
 RecvFrom(c, s) ==
     /\ Can(c, "RecvFrom") /\ Alive(c, s) /\ w.sk[c][s].kind # "dlc"
     /\ (w.sk[c][s].addr # NoAddr /\ Occupied(w, c, w.sk[c][s].addr)) => w.sk[c][s].rq # <<>>
@@ -312,10 +352,13 @@ Resolve(c, n) ==
     /\ Can(c, "Resolve")
     /\ LET r == ResolveR(w, c, n)
        IN w' = r.w /\ last' = [Rec("Resolve", c, 0, w) EXCEPT !.res = r.res, !.val = r.val, !.n = n, !.cached = r.cached]
-\* not while the socket's owner is blocked in connect(), not on a listener with unanswered connection requests
+\* not while the socket's owner is blocked in connect(), not on a listener with unanswered connection requests, and
+\* a connection only while its other end is still there to answer the DISC (else close() waits for ever)
 CloseF(c, s, fx) ==
     /\ Can(c, "Close") /\ Alive(c, s) /\ w.sk[c][s].st # "connecting"
     /\ ~(w.sk[c][s].st = "listen" /\ w.sk[c][s].rq # <<>>)
+    /\ (w.sk[c][s].st = "conn" /\ w.sk[c][s].addr # NoAddr /\ Occupied(w, c, w.sk[c][s].addr)) =>
+            (OtherEnd(w, c, s) # 0 /\ w.sk[Peer(c)][OtherEnd(w, c, s)].st = "conn")
     /\ LET r == CloseR(w, c, s, fx) IN w' = r.w /\ last' = [Rec("Close", c, s, w) EXCEPT !.res = r.res]
 Close(c, s) == CloseF(c, s, Fix)
 
@@ -331,6 +374,8 @@ Next == \E c \in Sides :
                 \/ Accept(c, s)
                 \/ \E dst \in Dsts, m \in Msgs : SendTo(c, s, dst, m)
                 \/ RecvFrom(c, s)
+                \/ Recv(c, s)
+                \/ PeerFrmr(c, s)
                 \/ Close(c, s)
           \/ \E n \in Names : Resolve(c, n)
 
@@ -347,4 +392,10 @@ W_Resolved       == ~(last.op = "Resolve" /\ last.val \notin {0, 1})
 W_ByName         == ~(last.op = "Accept" /\ w.sk[last.c][last.s].name # "")
 W_WksBound       == ~(last.op = "BindName" /\ last.n = "wk" /\ last.res = "OK")
 W_Access         == ~(last.op = "BindAddr" /\ last.res = "Access")
+\* the life cycle: a socket shut down by the peer's DISC / by FRMR / by a UI PDU is closed, and its address or name re-used
+W_DeadByRecv     == ~(last.op = "Recv" /\ last.res = "EOF")
+W_DeadByFrmr     == ~(last.op = "PeerFrmr")
+W_DeadByUi       == ~(last.op = "SendTo" /\ \E i \in 1..Len(w.sk[Peer(last.c)]) : w.sk[Peer(last.c)][i].st = "dead" /\ w.sk[Peer(last.c)][i].peer = NoAddr)
+W_DeadNamed      == ~(\E c \in Sides : \E i \in 1..Len(w.sk[c]) : w.sk[c][i].st = "dead" /\ w.sk[c][i].name # "" /\ w.sk[c][i].origin = "bind")
+W_RebindAfterDead == ~(last.op = "BindName" /\ last.res = "OK" /\ \E i \in 1..Len(w.sk[last.c]) : i < last.s /\ w.sk[last.c][i].st = "shut" /\ w.sk[last.c][i].kind = "dlc")
 =============================================================================
